@@ -39,6 +39,10 @@ CLAIMED = {
    text='Decides writer/reader agreement between the EdgeQL printer and the grammar + lexer: every node class a reduction can construct has a visit_<Class> (exact-name dispatch) or is a listed inline component; every field a reduction can set to a non-constant value (keyword arguments, positional arguments, and self.val.<attr> stores resolved through the production symbols) is read by that visitor transitively through helpers and closures; literal brackets balance on every condition-consistent path of every visitor; literal alphabet agreement with the Rust lexer (shared with C18); keyword words exist in keywords.rs. Parenthesisation sufficiency, token fusion and byte-identity of the second print are not decided.',
    note=NOTE + ' Field reads are attribute reads on the node parameter, inter-procedural to depth 5.',
    technique='static analysis: registry exhaustiveness and inter-procedural field-coverage over the AST family (grammar side vs printer side), path-consistent bracket counting, keyword-table inclusion, character-class algebra'),
+ 'C08': dict(
+   text='Decides: the statement-class dispatch of _compile_dispatch_ql, abstractly evaluated over every concrete qlast statement class, returns the capability of the class family (DDL, +TRANSACTION for migration commands with a tx action, TRANSACTION, SESSION_CONFIG, scope-dependent config capability, MODIFICATIONS iff has_dml); every construction of a mutating IR statement is dominated by a dml_exprs record and modifying function calls are recorded; has_dml derives from the dml_exprs of the same IR, MODIFICATIONS is guarded only by it, capabilities flow unmodified into the unit and are aggregated by union; flag enum sanity. Volatility inference of function bodies is not decided.',
+   note=NOTE,
+   technique='static analysis: abstract evaluation of an isinstance chain over the resolved class hierarchy, CFG dominance, provenance of keyword arguments, enum table checks'),
 }
 
 _PENDING = 'check not built yet in this round (design in DESIGN.md §3); will be claimed when its rules are armed'
